@@ -166,3 +166,63 @@ func VerifH_C29_Requests() {
 	s.handleService(context.Background(), c.sc, 40, req)
 	vfReach("survived")
 }
+
+// C29 (bookkeeping kernel): why writes can never be wedged by subscriptions that are gone.
+// After every create / delete of monitored items and subscriptions the per-node fan-out lists
+// of the MonitoredItemService contain exactly the live items: every listed item is registered
+// under its id and belongs to a subscription that still exists. (A stale entry feeds the
+// notification queue of a deleted subscription, which nobody drains: after 100 writes the
+// dispatch goroutine blocks for ever.)
+func VerifH_C29_MonitoredItemBookkeeping() {
+	s, _, ns := vfServer()
+	ids := []*ua.NodeID{ua.NewNumericNodeID(ns.ID(), 1000), ua.NewNumericNodeID(ns.ID(), 1001)}
+	for i, id := range ids {
+		ns.AddNode(NewVariableNode(id, "v", int32(i)))
+	}
+	c := vfOpenChannel()
+	tok := vfSession(s, c, true)
+	sub := vfCreateSub(s, c, tok)
+	n := vfConcrete(vfInt("items", 1, 3))
+	var itemIDs []uint32
+	for i := 0; i < n; i++ {
+		node := ids[vfConcrete(vfInt("node", 0, 1))]
+		r, _ := vfCall(s, c, &ua.CreateMonitoredItemsRequest{RequestHeader: vfHdr(tok), SubscriptionID: sub, ItemsToCreate: []*ua.MonitoredItemCreateRequest{{
+			ItemToMonitor: &ua.ReadValueID{NodeID: node, AttributeID: ua.AttributeIDValue}, MonitoringMode: ua.MonitoringModeReporting,
+			RequestedParameters: &ua.MonitoringParameters{ClientHandle: uint32(10 + i), QueueSize: 1}}}}).(*ua.CreateMonitoredItemsResponse)
+		vfAssert(r != nil && len(r.Results) == 1 && r.Results[0].StatusCode == ua.StatusOK, "CreateMonitoredItems fails")
+		if r == nil || len(r.Results) != 1 {
+			return
+		}
+		itemIDs = append(itemIDs, r.Results[0].MonitoredItemID)
+	}
+	check := func(when string) {
+		m := s.MonitoredItemService
+		m.Mu.Lock()
+		defer m.Mu.Unlock()
+		for _, list := range m.Nodes {
+			for _, it := range list {
+				if it == nil {
+					continue
+				}
+				vfAssert(m.Items[it.ID] == it, "a per-node notification list holds a monitored item that is not registered any more ("+when+")")
+				s.SubscriptionService.Mu.Lock()
+				live := it.Sub != nil && s.SubscriptionService.Subs[it.Sub.ID] == it.Sub
+				s.SubscriptionService.Mu.Unlock()
+				vfAssert(live, "a per-node notification list holds an item of a subscription that does not exist any more ("+when+")")
+			}
+		}
+	}
+	check("after creation")
+	switch vfConcrete(vfInt("delete", 0, 2)) {
+	case 0: // one item
+		k := vfConcrete(vfInt("which", 0, n-1))
+		vfCall(s, c, &ua.DeleteMonitoredItemsRequest{RequestHeader: vfHdr(tok), SubscriptionID: sub, MonitoredItemIDs: []uint32{itemIDs[k]}})
+	case 1: // all items, in creation order
+		vfCall(s, c, &ua.DeleteMonitoredItemsRequest{RequestHeader: vfHdr(tok), SubscriptionID: sub, MonitoredItemIDs: itemIDs})
+	case 2: // the subscription
+		vfCall(s, c, &ua.DeleteSubscriptionsRequest{RequestHeader: vfHdr(tok), SubscriptionIDs: []uint32{sub}})
+	}
+	vfSettle() // the handlers delete in background goroutines
+	check("after deletion")
+	vfReach("consistent")
+}
